@@ -111,9 +111,18 @@ Qed.
 
 (** ** grow *)
 
+Lemma grow_eq ws wi : grow ws wi = ws ++ repeat 0 (Z.to_nat (wi + 1 - zlen ws)).
+Proof.
+  unfold grow. destruct (nthZ ws wi) as [w|] eqn:E; [|reflexivity].
+  apply nthZ_Some in E. destruct E as [H0 E].
+  assert (Z.to_nat wi < length ws)%nat by (apply nth_error_Some; congruence).
+  replace (Z.to_nat (wi + 1 - zlen ws)) with 0%nat by (unfold zlen; lia).
+  cbn [repeat]. rewrite app_nil_r. reflexivity.
+Qed.
+
 Lemma grow_length ws wi : zlen (grow ws wi) = Z.max (zlen ws) (wi + 1).
 Proof.
-  unfold grow, zlen. rewrite app_length, repeat_length. lia.
+  rewrite grow_eq. unfold zlen. rewrite app_length, repeat_length. lia.
 Qed.
 
 Lemma nth_error_repeat {A} (x : A) n i : (i < n)%nat -> nth_error (repeat x n) i = Some x.
@@ -125,9 +134,9 @@ Qed.
 Lemma grow_WInv P off ws wi : WInv P off ws -> WInv P off (grow ws wi).
 Proof.
   intros HW. constructor.
-  - unfold grow, words_ok. apply Forall_app. split; [apply HW|].
+  - rewrite grow_eq. unfold words_ok. apply Forall_app. split; [apply HW|].
     apply Forall_forall. intros x Hx. apply repeat_spec in Hx. subst. unfold word_ok. lia.
-  - intros i w b Hn Hb. unfold grow in Hn.
+  - intros i w b Hn Hb. rewrite grow_eq in Hn.
     destruct (Nat.lt_ge_cases i (length ws)) as [Hi|Hi].
     + rewrite nth_error_app1 in Hn by exact Hi. apply (wi_bits _ _ _ HW); assumption.
     + rewrite nth_error_app2 in Hn by exact Hi.
@@ -199,27 +208,30 @@ Qed.
 
 (** * the state invariant *)
 
-Record Inv (o : Z) (P : Z -> Prop) (s : tb) : Prop := mkInv {
+(** [st] says whether the head clause is part of the invariant: [Inv True] is the invariant of the
+    states reachable from NewTailBitmap; [Inv False] is what survives from an arbitrary well-formed
+    struct literal (whose first word may be all-ones until the first word is touched or Compact runs). *)
+Record Inv (st : Prop) (o : Z) (P : Z -> Prop) (s : tb) : Prop := mkInv {
   inv_align : Offset s mod 64 = 0;
   inv_ge : o <= Offset s;
-  inv_head : head_ok (Words s);
+  inv_head : st -> head_ok (Words s);
   inv_below : forall j, j < Offset s -> j < o \/ P j;
   inv_w : WInv P (Offset s) (Words s)
 }.
 
-Lemma Inv_ext o P Q s : (forall j, P j <-> Q j) -> Inv o P s -> Inv o Q s.
+Lemma Inv_ext st o P Q s : (forall j, P j <-> Q j) -> Inv st o P s -> Inv st o Q s.
 Proof.
   intros E H. constructor; try apply H.
-  - intros j Hj. destruct (inv_below _ _ _ H j Hj) as [A|A]; [left; exact A|right; apply E; exact A].
+  - intros j Hj. destruct (inv_below _ _ _ _ H j Hj) as [A|A]; [left; exact A|right; apply E; exact A].
   - eapply WInv_ext; [exact E|apply H].
 Qed.
 
-Lemma Inv_New o : o mod 64 = 0 -> Inv o (fun _ => False) (NewTailBitmap o).
+Lemma Inv_New st o : o mod 64 = 0 -> Inv st o (fun _ => False) (NewTailBitmap o).
 Proof.
   intros Ho. constructor; cbn [NewTailBitmap Offset Words].
   - exact Ho.
   - lia.
-  - intros w t E. discriminate.
+  - intros _ w t E. discriminate.
   - intros j Hj. left. exact Hj.
   - constructor.
     + constructor.
@@ -238,26 +250,34 @@ Qed.
 
 Definition end_of (s : tb) : Z := tb_end (Offset s) (Words s).
 
-Lemma Inv_Compact o P s : Inv o P s ->
-  Inv o P (Compact s) /\ Offset s <= Offset (Compact s) /\ end_of (Compact s) = end_of s /\
+Lemma Inv_Compact st o P s : Inv st o P s ->
+  Inv True o P (Compact s) /\ Offset s <= Offset (Compact s) /\ end_of (Compact s) = end_of s /\
   (forall j, Offset s <= j < Offset (Compact s) -> P j).
 Proof.
   intros H. destruct (Compact_fields s) as [EO EW].
-  pose proof (compact_loop_spec P (Words s) (Offset s) (inv_w _ _ _ H)) as L.
+  pose proof (compact_loop_spec P (Words s) (Offset s) (inv_w _ _ _ _ H)) as L.
   destruct (compact_loop (Offset s) (Words s)) as [off' ws']. cbn [fst snd] in *.
   destruct L as (I1 & I2 & I3 & I4 & I5 & I6).
   unfold end_of, tb_end. rewrite EO, EW.
   split; [|split; [exact I3|split; [lia|exact I5]]].
   constructor; rewrite ?EO, ?EW.
   - replace off' with (Offset s + (off' - Offset s)) by lia.
-    rewrite Z.add_mod by lia. rewrite (inv_align _ _ _ H), I4. reflexivity.
-  - pose proof (inv_ge _ _ _ H). lia.
-  - exact I2.
+    rewrite Z.add_mod by lia. rewrite (inv_align _ _ _ _ H), I4. reflexivity.
+  - pose proof (inv_ge _ _ _ _ H). lia.
+  - intros _. exact I2.
   - intros j Hj. destruct (Z_lt_le_dec j (Offset s)).
-    + apply (inv_below _ _ _ H). assumption.
+    + apply (inv_below _ _ _ _ H). assumption.
     + right. apply I5. lia.
   - exact I1.
 Qed.
+
+Lemma Inv_weaken (st st' : Prop) o P s : (st' -> st) -> Inv st o P s -> Inv st' o P s.
+Proof.
+  intros W H. constructor; try apply H. intros A. apply (inv_head _ _ _ _ H). apply W. exact A.
+Qed.
+
+Lemma Inv_strengthen (st : Prop) o P s : head_ok (Words s) -> Inv st o P s -> Inv True o P s.
+Proof. intros Hh H. constructor; try apply H. intros _. exact Hh. Qed.
 
 (** ** Set *)
 
@@ -275,19 +295,19 @@ Proof.
 Qed.
 
 (** Set never panics, and what it does to the exported fields *)
-Lemma Set_spec o P s idx : Inv o P s ->
-  exists s', Set_ s idx = Some s' /\ Inv o (fun j => P j \/ j = idx) s' /\
+Lemma Set_spec st o P s idx : Inv st o P s ->
+  exists s', Set_ s idx = Some s' /\ Inv st o (fun j => P j \/ j = idx) s' /\
              Offset s <= Offset s' /\ end_of s <= end_of s' /\
              (forall j, Offset s <= j < Offset s' -> P j \/ j = idx).
 Proof.
   intros H. unfold Set_. destruct (Z.ltb_spec idx (Offset s)) as [Hlt|Hge].
   - exists s. split; [reflexivity|]. split; [|split; [lia|split; [lia|intros; lia]]].
     constructor; try apply H.
-    + intros j Hj. destruct (inv_below _ _ _ H j Hj); [left|right; left]; assumption.
+    + intros j Hj. destruct (inv_below _ _ _ _ H j Hj); [left|right; left]; assumption.
     + constructor; try apply H.
-      * intros i w b Hn Hb. rewrite (wi_bits _ _ _ (inv_w _ _ _ H) i w b Hn Hb).
+      * intros i w b Hn Hb. rewrite (wi_bits _ _ _ (inv_w _ _ _ _ H) i w b Hn Hb).
         split; [intros A; left; exact A|]. intros [A|A]; [exact A|]. lia.
-      * intros j [Hj|Hj]; [apply (wi_end _ _ _ (inv_w _ _ _ H)); exact Hj|].
+      * intros j [Hj|Hj]; [apply (wi_end _ _ _ (inv_w _ _ _ _ H)); exact Hj|].
         subst j. unfold zlen. lia.
   - cbv zeta. rewrite shiftr6, land63.
     set (d := idx - Offset s). assert (Hd : 0 <= d) by (unfold d; lia).
@@ -296,7 +316,7 @@ Proof.
     assert (Hb : 0 <= b < 64) by (apply Z.mod_pos_bound; lia).
     assert (Hdec : idx = Offset s + 64 * Z.of_nat (Z.to_nat wi) + b).
     { rewrite Z2Nat.id by exact Hwi. unfold wi, b. pose proof (Z.div_mod d 64). unfold d in *. lia. }
-    pose proof (grow_WInv P (Offset s) (Words s) wi (inv_w _ _ _ H)) as HG.
+    pose proof (grow_WInv P (Offset s) (Words s) wi (inv_w _ _ _ _ H)) as HG.
     destruct (nth_error_grow_some (Words s) wi Hwi) as [w Hw].
     destruct (update_nth_spec (fun w => Z.lor w (Bit b)) _ _ _ Hw) as (ws' & EU & LU & NU & OU).
     unfold updateZ. destruct (Z.ltb_spec wi 0) as [?|_]; [lia|]. rewrite EU.
@@ -305,18 +325,18 @@ Proof.
     assert (Hlen : zlen ws' = Z.max (zlen (Words s)) (wi + 1)).
     { unfold zlen at 1. rewrite LU. apply grow_length. }
     set (s1 := mkTB (Offset s) ws' (reclaimed s)).
-    assert (Hhd : wi <> 0 -> head_ok ws').
-    { intros Hne x t E.
+    assert (Hhd : wi <> 0 -> st -> head_ok ws').
+    { intros Hne St x t E.
       assert (N0 : nth_error ws' 0 = nth_error (grow (Words s) wi) 0).
       { apply OU. intros E0. apply Hne. apply (f_equal Z.of_nat) in E0.
         rewrite Z2Nat.id in E0 by exact Hwi. cbn in E0. lia. }
-      rewrite E in N0. cbn [nth_error] in N0. unfold grow in N0.
+      rewrite E in N0. cbn [nth_error] in N0. rewrite grow_eq in N0.
       destruct (Words s) as [|y t'] eqn:EW.
       - cbn [app] in N0.
         destruct (Z.to_nat (wi + 1 - zlen (@nil Z))) eqn:En; cbn [repeat nth_error] in N0; [discriminate|].
         inversion N0; subst x. unfold allOnes. lia.
       - cbn [app nth_error] in N0. inversion N0; subst x.
-        apply (inv_head _ _ _ H y t'). exact EW. }
+        apply (inv_head _ _ _ _ H St y t'). exact EW. }
     destruct (Z.eqb_spec wi 0) as [E0|E0].
     + (* the first word was touched: Compact *)
       assert (HI : WInv (fun j => P j \/ j = idx) (Offset s1) (Words s1)) by exact HU.
@@ -327,12 +347,12 @@ Proof.
       exists (Compact s1). split; [reflexivity|].
       cbn [Offset Words s1] in *.
       split; [|split; [lia|split]].
-      * constructor; rewrite ?EO, ?EW; try assumption.
+      * constructor; rewrite ?EO, ?EW; try assumption; try (intros _; exact I2).
         -- replace off' with (Offset s + (off' - Offset s)) by lia.
-           rewrite Z.add_mod by lia. rewrite (inv_align _ _ _ H), I4. reflexivity.
-        -- pose proof (inv_ge _ _ _ H). lia.
+           rewrite Z.add_mod by lia. rewrite (inv_align _ _ _ _ H), I4. reflexivity.
+        -- pose proof (inv_ge _ _ _ _ H). lia.
         -- intros j Hj. destruct (Z_lt_le_dec j (Offset s)).
-           ++ destruct (inv_below _ _ _ H j); [assumption|left; assumption|right; left; assumption].
+           ++ destruct (inv_below _ _ _ _ H j); [assumption|left; assumption|right; left; assumption].
            ++ right. apply I5. lia.
       * unfold end_of, tb_end. rewrite EO, EW. lia.
       * rewrite EO. intros j Hj. apply I5. lia.
@@ -340,7 +360,7 @@ Proof.
       split; [|split; [lia|split; [unfold end_of, tb_end; cbn [Offset Words s1]; lia|intros; lia]]].
       constructor; cbn [Offset Words s1]; try apply H.
       * apply Hhd. exact E0.
-      * intros j Hj. destruct (inv_below _ _ _ H j Hj); [left|right; left]; assumption.
+      * intros j Hj. destruct (inv_below _ _ _ _ H j Hj); [left|right; left]; assumption.
       * exact HU.
 Qed.
 
@@ -352,12 +372,12 @@ Proof.
   intros Ha Hj. rewrite Zminus_mod, Ha, Z.sub_0_r. apply Z.mod_mod. lia.
 Qed.
 
-Lemma Get_spec o P s j (m : bool) : Inv o P s -> j < end_of s ->
+Lemma Get_spec st o P s j (m : bool) : Inv st o P s -> j < end_of s ->
   (m = true <-> j < o \/ P j) ->
   Get1 s j = Some (Z.b2z m) /\ Get s j = Some (Z.shiftl (Z.b2z m) (j mod 64)).
 Proof.
   intros H Hj Hm. unfold Get, Get1. destruct (Z.ltb_spec j (Offset s)) as [Hlt|Hge].
-  - assert (m = true) as -> by (apply Hm; apply (inv_below _ _ _ H); exact Hlt).
+  - assert (m = true) as -> by (apply Hm; apply (inv_below _ _ _ _ H); exact Hlt).
     rewrite land63. cbn [Z.b2z]. rewrite Z.shiftl_1_l. split; reflexivity.
   - cbv zeta. rewrite shiftr6, land63.
     set (d := j - Offset s). assert (Hd : 0 <= d) by (unfold d; lia).
@@ -367,14 +387,14 @@ Proof.
     { unfold end_of, tb_end in Hj. apply Z.div_lt_upper_bound; [lia|]. unfold d. lia. }
     destruct (nthZ_in_range (Words s) (d / 64) (conj Hwi Hr)) as [w Hw]. rewrite Hw.
     apply nthZ_Some in Hw. destruct Hw as [_ Hw].
-    pose proof (wi_bits _ _ _ (inv_w _ _ _ H) _ w _ Hw Hb) as Hbit.
+    pose proof (wi_bits _ _ _ (inv_w _ _ _ _ H) _ w _ Hw Hb) as Hbit.
     rewrite Z2Nat.id in Hbit by exact Hwi.
     replace (Offset s + 64 * (d / 64) + d mod 64) with j in Hbit
       by (pose proof (Z.div_mod d 64); unfold d in *; lia).
     assert (Em : Z.testbit w (d mod 64) = m).
     { destruct m, (Z.testbit w (d mod 64)); try reflexivity.
       - exfalso. assert (A : j < o \/ P j) by (apply Hm; reflexivity).
-        destruct A as [A|A]; [pose proof (inv_ge _ _ _ H); lia|].
+        destruct A as [A|A]; [pose proof (inv_ge _ _ _ _ H); lia|].
         apply Hbit in A. discriminate.
       - exfalso. assert (A : false = true) by (apply Hm; right; apply Hbit; reflexivity).
         discriminate. }
@@ -411,30 +431,49 @@ Proof.
   apply nth_error_nth with (d := false) in E. exact E.
 Qed.
 
-Lemma Inv_TInv o P s : Inv o P s -> TInv o P (Offset s) (Words s).
+Lemma Inv_bits st o P s : Inv st o P s ->
+  forall j, Offset s <= j < tb_end (Offset s) (Words s) ->
+  (bitz (flat (Words s)) (j - Offset s) = true <-> P j).
+Proof.
+  intros H j Hj. unfold tb_end in Hj.
+  set (d := j - Offset s). assert (Hd : 0 <= d) by (unfold d; lia).
+  assert (Hwi : 0 <= d / 64) by (apply Z.div_pos; lia).
+  assert (Hb : 0 <= d mod 64 < 64) by (apply Z.mod_pos_bound; lia).
+  assert (Hr : d / 64 < zlen (Words s)).
+  { apply Z.div_lt_upper_bound; [lia|]. unfold d. lia. }
+  destruct (nthZ_in_range (Words s) (d / 64) (conj Hwi Hr)) as [w Hw].
+  apply nthZ_Some in Hw. destruct Hw as [_ Hw].
+  pose proof (wi_bits _ _ _ (inv_w _ _ _ _ H) _ w _ Hw Hb) as Hbit.
+  rewrite Z2Nat.id in Hbit by exact Hwi.
+  replace (Offset s + 64 * (d / 64) + d mod 64) with j in Hbit
+    by (pose proof (Z.div_mod d 64); unfold d in *; lia).
+  rewrite <- Hbit.
+  pose proof (bitz_flat (Words s) _ w (d mod 64) Hw Hb) as Hz.
+  rewrite Z2Nat.id in Hz by exact Hwi.
+  replace (64 * (d / 64) + d mod 64) with d in Hz by (pose proof (Z.div_mod d 64); lia).
+  rewrite Hz. reflexivity.
+Qed.
+
+(** the invariant without the head clause (what holds from an arbitrary struct literal) *)
+Lemma Inv_TInvW st o P s : Inv st o P s -> TInvW o P (Offset s) (Words s).
 Proof.
   intros H. constructor.
   - apply H.
   - apply H.
-  - apply (wi_words _ _ _ (inv_w _ _ _ H)).
-  - intros w t E. apply (inv_head _ _ _ H w t E).
+  - apply (wi_words _ _ _ (inv_w _ _ _ _ H)).
   - apply H.
-  - intros j Hj. unfold tb_end in Hj.
-    set (d := j - Offset s). assert (Hd : 0 <= d) by (unfold d; lia).
-    assert (Hwi : 0 <= d / 64) by (apply Z.div_pos; lia).
-    assert (Hb : 0 <= d mod 64 < 64) by (apply Z.mod_pos_bound; lia).
-    assert (Hr : d / 64 < zlen (Words s)).
-    { apply Z.div_lt_upper_bound; [lia|]. unfold d. lia. }
-    destruct (nthZ_in_range (Words s) (d / 64) (conj Hwi Hr)) as [w Hw].
-    apply nthZ_Some in Hw. destruct Hw as [_ Hw].
-    pose proof (wi_bits _ _ _ (inv_w _ _ _ H) _ w _ Hw Hb) as Hbit.
-    rewrite Z2Nat.id in Hbit by exact Hwi.
-    replace (Offset s + 64 * (d / 64) + d mod 64) with j in Hbit
-      by (pose proof (Z.div_mod d 64); unfold d in *; lia).
-    rewrite <- Hbit.
-    pose proof (bitz_flat (Words s) _ w (d mod 64) Hw Hb) as Hz.
-    rewrite Z2Nat.id in Hz by exact Hwi.
-    replace (64 * (d / 64) + d mod 64) with d in Hz by (pose proof (Z.div_mod d 64); lia).
-    rewrite Hz. reflexivity.
-  - apply (wi_end _ _ _ (inv_w _ _ _ H)).
+  - apply (Inv_bits st o P s H).
+  - apply (wi_end _ _ _ (inv_w _ _ _ _ H)).
+Qed.
+
+Lemma Inv_TInv (st : Prop) o P s : st -> Inv st o P s -> TInv o P (Offset s) (Words s).
+Proof.
+  intros St H. constructor.
+  - apply H.
+  - apply H.
+  - apply (wi_words _ _ _ (inv_w _ _ _ _ H)).
+  - intros w t E. apply (inv_head _ _ _ _ H St w t E).
+  - apply H.
+  - apply (Inv_bits st o P s H).
+  - apply (wi_end _ _ _ (inv_w _ _ _ _ H)).
 Qed.
